@@ -100,11 +100,11 @@ def unescape_bytes(s):
 
 # ----------------------------------------------------------------------------- IR
 class Fn:
-    __slots__ = ('name', 'crate', 'params', 'ret', 'locals', 'blocks', 'text_hash', 'nargs', 'cfg')
+    __slots__ = ('name', 'crate', 'params', 'ret', 'locals', 'blocks', 'text_hash', 'nargs', 'cfg', 'debug')
 
     def __init__(s, name, crate, params, ret):
         s.name = name; s.crate = crate; s.params = params; s.ret = ret
-        s.locals = {}; s.blocks = {}; s.text_hash = None; s.nargs = len(params); s.cfg = None
+        s.locals = {}; s.blocks = {}; s.text_hash = None; s.nargs = len(params); s.cfg = None; s.debug = {}
 
 
 INT_TYPES = {'usize': (0, 2**64 - 1), 'u8': (0, 255), 'u16': (0, 2**16 - 1), 'u32': (0, 2**32 - 1),
@@ -395,6 +395,8 @@ def parse_mir(text, crate, mir=None):
                 if cur is None:
                     lm = re.match(r'let (mut )?_(\d+): (.*);$', l2)
                     if lm: fn.locals[int(lm.group(2))] = lm.group(3)
+                    dm = re.match(r'debug (\w+) => _(\d+);$', l2)
+                    if dm: fn.debug.setdefault(dm.group(1), int(dm.group(2)))
                     continue
                 if l2 == '}':
                     fn.blocks[cur][1] = body.pop() if body else 'unreachable'; cur = None
@@ -414,8 +416,8 @@ def parse_mir(text, crate, mir=None):
         if am:
             aid = int(am.group(1)); data = []; i += 1
             while i < n and lines[i] != '}':
-                row = lines[i].split('│')[0]; i += 1
-                row = re.sub(r'^\s*0x[0-9a-f]+ │', '', row)
+                row = re.sub(r'^\s*0x[0-9a-f]+\s*│', '', lines[i]); i += 1
+                row = row.split('│')[0]
                 for tok in re.findall(r'╾─*alloc\d+[^╼]*╼|__|[0-9a-f]{2}', row):
                     if tok.startswith('╾'):
                         data.append(('ptr', int(re.search(r'alloc(\d+)', tok).group(1))))
@@ -438,6 +440,10 @@ def ensure_parsed(fn):
             st = parse_statement(t)
             if st is not None: stmts.append(st)
         blk[0] = stmts; blk[1] = parse_terminator(blk[1])
+    for b, blk in fn.blocks.items():
+        t = blk[1]
+        if not blk[2] and isinstance(t, tuple) and t[0] == 'call' and t[4] is not None and t[4] in fn.blocks and fn.blocks[t[4]][2]:
+            blk[1] = (t[0], t[1], t[2], t[3], None)          # `-> bbN` with bbN a cleanup block: the call diverges, bbN is its unwind target
     fn.cfg = True
 
 
